@@ -499,7 +499,7 @@ pub fn run(tier: Tier) -> i32 {
         frontier = next;
     }
     // only maximal histories need a process: every prefix is observed on the way
-    let exe = std::env::current_exe().expect("exe");
+    let exe = crate::report::worker_exe();
     // reference: every probe in a process of its own (no earlier call of any kind, on any thread)
     let reference: Vec<String> = par_map(&(0..N_HISTORY_PROBES).collect::<Vec<_>>(), || (), |_, k| {
         let o = std::process::Command::new(&exe).args(["c11w", "--probe", &k.to_string()]).env_remove("PRQL_VERSION_OVERRIDE").stderr(std::process::Stdio::null()).output();
